@@ -5,7 +5,8 @@
    known class `Self`).  Collision
    freedom is refuted (the tool neither renames nor rejects), constants/derives/type checking are covered by the
    rustc stage of checks/C09.py only. *)
-From A1 Require Import Base.Res Gen.Keywords Front.Codegen Front.CodegenProofs.
+From A1 Require Front.IntTy.
+From A1 Require Import Base.Res Gen.Keywords Front.Codegen Front.CodegenProofs Front.Attr Front.Descr Front.EmitProofs.
 From Coq Require Import String.
 Local Open Scope N_scope.
 
@@ -74,7 +75,98 @@ Example C09_nonvacuous_variant :
   asn_identifier (codes "dark-blue") = true /\ ~ Known_C09_variant (codes "dark-blue") /\ emit_variant (codes "dark-blue") = codes "DarkBlue".
 Proof. split; [reflexivity|]. split; [|reflexivity]. intros H. vm_compute in H. discriminate. Qed.
 
+(* ================================================================== collisions: nothing beyond the mangling
+
+   The mangling (rust.rs: rust_field_name / rust_variant_name / rust_struct_or_enum_name) is not injective -- refuted above,
+   F09-3 .. F09-8.  [distinct_after_mangling mangle names] = the mangled names are pairwise different; under that explicit
+   hypothesis the names that END UP in the generated file are pairwise different per namespace: the generator's own
+   step (keyword escape `type` -> `type_` for fields, RustCodeGenerator::rust_variant_name for variants, nothing for types)
+   adds no collision -- a mangled component name never ends in `_`, so `x_` can only be an escaped keyword.
+   PARTIAL: associated constants / functions (F09-7), value references (F09-8), the expansion's AsnDef.. / ..Constraint
+   names (F09-5) and names captured from the prelude (F09-15) are covered by the oracle of checks/C09.py only. *)
+Theorem C09_no_collision : forall fields variants types,
+  Forall (fun s => asn_identifier s = true) fields ->
+  Forall (fun s => asn_identifier s = true \/ asn_typereference s = true) variants ->
+  distinct_after_mangling rust_field_name fields ->
+  distinct_after_mangling rust_variant_name variants ->
+  distinct_after_mangling rust_struct_or_enum_name types ->
+  NoDup (map emit_field fields) /\ NoDup (map emit_variant variants) /\ NoDup (map emit_type types).
+Proof.
+  intros fields variants types Hf Hv Df Dv Dt. split; [|split].
+  - exact (no_collision_fields fields Hf Df).
+  - exact (no_collision_variants variants Hv Dv).
+  - exact (no_collision_types types Dt).
+Qed.
+
+(* the fact behind the field case *)
+Theorem C09_field_name_no_trailing_underscore : forall s,
+  asn_identifier s = true -> exists t x, rust_field_name s = t ++ [x] /\ x <> USCORE.
+Proof. exact field_name_no_trailing_uscore. Qed.
+
+(* ================================================================== integer constants have their declared type
+
+   fmt_const prints `pub const NAME: <to_const_lit_string of the RustType> = <decimal text of the i64 value>;` for named
+   numbers and INTEGER value references.  [const_lit_type t = CTInt k]: the declared type is the integer type k (the
+   type itself, or below DEFAULT).  [int_wf k mn mx]: the bounds of the Rust type are values of k and only u64 lacks
+   bounds (property C15).  Outside F09-9 ([Known_C09_const_negative_on_unsigned]: a negative value on an unsigned
+   type) and F09-10 ([Known_C09_const_out_of_constraint]: a value outside the constraint) the literal is a value of k.
+   PARTIAL: other constant types (strings, octet strings: F09-11, F09-12) are covered by the oracle only. *)
+Theorem C09_consts_typed_partial : forall t k mn mx z,
+  const_lit_type t = CTInt k -> int_wf k mn mx -> (IntTy.i64_min <= z <= IntTy.i64_max)%Z ->
+  ~ Known_C09_const_negative_on_unsigned k z -> ~ Known_C09_const_out_of_constraint mn mx z ->
+  IntTy.fits k z.
+Proof. intros t k mn mx z _. exact (consts_typed k mn mx z). Qed.
+
+(* the declared type is the integer type for the type itself and below DEFAULT ... *)
+Theorem C09_const_declared_type : forall k mn mx e l,
+  const_lit_type (RInt k mn mx e) = CTInt k /\ const_lit_type (RDefault (RInt k mn mx e) l) = CTInt k.
+Proof. intros. split; reflexivity. Qed.
+
+(* ... but NOT for an extension addition, which to_rust wraps in Option: `pub const B_X: Option<u8> = 1;`
+   (S ::= SEQUENCE { a BOOLEAN, ..., b INTEGER { x(1) } (0..9) }) *)
+Theorem C09_refuted_const_on_optional_type : forall k mn mx e,
+  const_lit_type (ROption (RInt k mn mx e)) = CTOption (CTInt k).
+Proof. intros. reflexivity. Qed.
+
+Theorem C09_refuted_const_negative_on_unsigned :
+  int_wf IntTy.U64 None None /\ Known_C09_const_negative_on_unsigned IntTy.U64 (-40)%Z /\ ~ IntTy.fits IntTy.U64 (-40)%Z.
+Proof.
+  split; [|split].
+  - repeat split; intros; try discriminate; reflexivity.
+  - split; reflexivity.
+  - unfold IntTy.fits. cbn. intros [H _]. apply H. reflexivity.
+Qed.
+
+Example C09_nonvacuous_no_collision :
+  let fields := [codes "type"; codes "my-field"; codes "typeX"] in
+  Forall (fun s => asn_identifier s = true) fields /\ distinct_after_mangling rust_field_name fields /\
+  map emit_field fields = [codes "type_"; codes "my_field"; codes "type_x"].
+Proof.
+  cbv zeta. split; [repeat constructor|]. split; [|vm_compute; reflexivity].
+  unfold distinct_after_mangling. vm_compute.
+  repeat (constructor; [intros H; cbn in H; repeat (destruct H as [H|H]; [discriminate H|]); exact H|]). constructor.
+Qed.
+
+Example C09_nonvacuous_consts_typed :
+  int_wf IntTy.U8 (Some 0%Z) (Some 255%Z) /\ ~ Known_C09_const_negative_on_unsigned IntTy.U8 8%Z /\
+  ~ Known_C09_const_out_of_constraint (Some 0%Z) (Some 255%Z) 8%Z.
+Proof.
+  split; [|split].
+  - repeat split; intros; try discriminate.
+    + inversion H; subst. cbn. discriminate.
+    + inversion H; subst. cbn. discriminate.
+    + destruct H; discriminate.
+  - intros [_ H]. discriminate H.
+  - intros [[a [Ha H]]|[b [Hb H]]]; [inversion Ha; subst | inversion Hb; subst]; discriminate H.
+Qed.
+
 Print Assumptions C09_field_idents_legal.
+Print Assumptions C09_no_collision.
+Print Assumptions C09_field_name_no_trailing_underscore.
+Print Assumptions C09_consts_typed_partial.
+Print Assumptions C09_const_declared_type.
+Print Assumptions C09_refuted_const_on_optional_type.
+Print Assumptions C09_refuted_const_negative_on_unsigned.
 Print Assumptions C09_keywords_complete.
 Print Assumptions C09_keywords_complete_identifier.
 Print Assumptions C09_keywords_escaped.
